@@ -4,7 +4,8 @@
 From Coq Require Import NArith ZArith List Bool.
 From I18n Require Import Lib.Outcome Generated.CodecOracle Generated.EncodingsData Generated.Charmaps
   Model.Encodings Model.Iconv Spec.Charsets Spec.Iconv
-  Proofs.Charmap Proofs.EncodingsTable Proofs.Iconv.
+  Proofs.Charmap Proofs.EncodingsTable Proofs.Iconv
+  Model.EncodingsPy Model.EncodingsMime Generated.EncodingsSrc Proofs.IconvSrc Proofs.EncodingsSrc.
 Import ListNotations.
 
 (* ------------------------------------------------------------------ charmap codecs (KOI8-RU, VISCII, GEORGIAN-PS) *)
@@ -207,6 +208,101 @@ Theorem C20_charmap_encodability_per_character : forall t m, cm_build t = Some m
 Proof. exact cm_encode_oracle_per_char. Qed.
 Print Assumptions C20_charmap_encodability_per_character.
 
+(* ------------------------------------------------------------------ source tie (notes/SRC8.md) *)
+(* Generated/EncodingsSrc.v is the statement-by-statement translation of the Python code of /repo made by
+   tools/gen/gen_encodings_src.py at the start of every check; each translated function equals the model the theorems
+   above are about.  A behavioural edit of that code changes the generated text and these no longer compile. *)
+
+(* lib/iconv.py _decode_dl / _encode_dl: the `while True` loops, for every libc behaviour, every capacity >= 0, all fuel:
+   first the two "no overflow" asserts, the reset call, the conversion call, the flush call only if that succeeded, E2BIG
+   => `output_len *= 2` and again, EILSEQ / EINVAL => the error positions, anything else OSError, the final asserts and
+   the slice of the buffer *)
+Theorem C20_source_tie_decode_loop : forall ops input fuel cap grows, (0 <= cap)%Z ->
+  src_iconv_decode_dl_loop ops fuel input cap = of_dec (snd (dec_loop ops input fuel cap grows)).
+Proof. exact src_decode_dl_loop_eq. Qed.
+Print Assumptions C20_source_tie_decode_loop.
+
+Theorem C20_source_tie_encode_loop : forall ops input fuel cap grows, (0 <= cap)%Z ->
+  src_iconv_encode_dl_loop ops fuel input cap = of_enc (snd (enc_loop ops (Z.of_nat (length input)) fuel cap grows)).
+Proof. exact src_encode_dl_loop_eq. Qed.
+Print Assumptions C20_source_tie_encode_loop.
+
+(* the resynchronisation scan `for end in range(begin + 1, len(input)): ... else: ...` *)
+Theorem C20_source_tie_decode_scan : forall ops input b cnt e,
+  src_iconv_decode_dl_for ops input b cnt e =
+  of_dec (match scan_end input (Z.of_nat (length input)) cnt e with
+          | Ok e' => Err (b, e') | Err x => Err x | Crash c => Crash c end).
+Proof. exact src_decode_dl_for_eq. Qed.
+Print Assumptions C20_source_tie_decode_scan.
+
+(* decode() / encode() down to iconv_open, try ... finally iconv_close: the first capacity is len(input) *)
+Theorem C20_source_tie_decode : forall ops input strict fuel,
+  src_iconv_decode ops fuel input strict = of_dec (snd (iconv_decode ops strict input fuel)).
+Proof. exact src_decode_eq. Qed.
+Print Assumptions C20_source_tie_decode.
+
+Theorem C20_source_tie_encode : forall ops input strict fuel,
+  src_iconv_encode ops fuel input strict = of_enc (snd (iconv_encode ops strict input fuel)).
+Proof. exact src_encode_eq. Qed.
+Print Assumptions C20_source_tie_encode.
+
+(* so the termination theorem above speaks about the translated code: under the iconv(3) contract the translated
+   decode() neither runs out of fuel, nor fails an assert, nor raises anything but UnicodeDecodeError with valid positions *)
+Theorem C20_source_tie_decode_terminates : forall ops input need k fuel,
+  let n := Z.of_nat (length input) in
+  iconv_contract ops n 1 4 need -> (n < size_t_max)%Z -> (2 * need <= size_t_max)%Z ->
+  io_open_ok ops = true -> (need <= Z.max n 1 * 2 ^ Z.of_nat k)%Z -> (k < fuel)%nat ->
+  (exists out, src_iconv_decode ops fuel input true = PRet out) \/
+  (exists b e, src_iconv_decode ops fuel input true = PRaise (PUnicodeDecodeError b e) /\ (0 <= b < e)%Z /\ (e <= n)%Z).
+Proof. exact src_decode_terminates. Qed.
+Print Assumptions C20_source_tie_decode_terminates.
+
+(* lib/encodings.py *)
+Theorem C20_source_tie_is_portable : forall d o enc py,
+  src_is_portable_encoding d o enc py = PRet (is_portable_encoding d o py enc).
+Proof. exact src_is_portable_encoding_eq. Qed.
+Print Assumptions C20_source_tie_is_portable.
+
+Theorem C20_source_tie_propose : forall d o enc py,
+  src_propose_portable_encoding d o enc py = of_propose (propose_portable_encoding d o enc).
+Proof. exact src_propose_portable_encoding_eq. Qed.
+Print Assumptions C20_source_tie_propose.
+
+Theorem C20_source_tie_ascii_compatible : forall d o enc missing_ok,
+  src_is_ascii_compatible_encoding d o enc missing_ok = of_ascii (is_ascii_compatible_encoding o missing_ok enc).
+Proof. exact src_is_ascii_compatible_encoding_eq. Qed.
+Print Assumptions C20_source_tie_ascii_compatible.
+
+(* _codec_search_function with charmap_encoding: for any tables such that str.upper is ASCII upper-casing on the names,
+   `um` is the un-mangling dict and `files` has the file names of data/charmaps ... *)
+Theorem C20_source_tie_codec_search : forall d o um files enc,
+  co_upper o = ascii_upper -> (forall e, sget um e e = unmangle d e) ->
+  (forall f, mem f (ed_charmap_files d) = has_key f files) ->
+  src_codec_search_function d o um files enc = of_search files (unmangle d enc) (codec_search d enc).
+Proof. exact src_codec_search_function_eq. Qed.
+Print Assumptions C20_source_tie_codec_search.
+
+(* ... which is the case of the tables the code sees today *)
+Theorem C20_source_tie_codec_search_real : forall enc,
+  src_codec_search_function real_enc_data real_oracle unmangle_table charmaps enc =
+  of_search charmaps (unmangle real_enc_data enc) (codec_search real_enc_data enc).
+Proof. exact real_src_codec_search_function_eq. Qed.
+Print Assumptions C20_source_tie_codec_search_real.
+
+(* the charset statement of Checker.check_mime: which of boilerplate-in-content-type / unknown-encoding /
+   non-ascii-compatible-encoding / non-portable-encoding / unrepresentable-characters is emitted, with which arguments *)
+Theorem C20_source_tie_check_mime : forall d o is_template has_language unrep enc ct,
+  src_check_mime_charset d o is_template has_language unrep enc ct =
+  mime_charset d o is_template has_language unrep enc ct.
+Proof. exact src_check_mime_charset_eq. Qed.
+Print Assumptions C20_source_tie_check_mime.
+
+(* Language.get_unrepresentable_characters from `result = []` on *)
+Theorem C20_source_tie_unrepresentable : forall encode cli chars,
+  src_unrepresentable_tail encode cli chars = of_unrep (get_unrepresentable_characters encode cli chars).
+Proof. exact src_unrepresentable_tail_eq. Qed.
+Print Assumptions C20_source_tie_unrepresentable.
+
 (* ------------------------------------------------------------------ non-vacuity *)
 Local Open Scope N_scope.
 Definition s_VISCII : list N := [86; 73; 83; 67; 73; 73].
@@ -245,4 +341,16 @@ Definition ex_ops (bad : bool) : iconv_ops := {|
 Example C20_ex_loop : iconv_decode (ex_ops false) true [97; 98; 99; 100] 3 = (2%nat, Ok [97; 98; 99; 100]).
 Proof. vm_compute. reflexivity. Qed.
 Example C20_ex_loop_error : iconv_decode (ex_ops true) true [97; 98; 200; 201] 3 = (0%nat, Err (2%Z, 4%Z)).
+Proof. vm_compute. reflexivity. Qed.
+(* the translated loop on the same abstract libc: two doublings, then the text; and the EILSEQ positions *)
+Example C20_src_ex_loop : src_iconv_decode (ex_ops false) 3 [97; 98; 99; 100] true = PRet [97; 98; 99; 100].
+Proof. vm_compute. reflexivity. Qed.
+Example C20_src_ex_loop_fuel : src_iconv_decode (ex_ops false) 2 [97; 98; 99; 100] true = PFuel.
+Proof. vm_compute. reflexivity. Qed.
+Example C20_src_ex_loop_error : src_iconv_decode (ex_ops true) 3 [97; 98; 200; 201] true = PRaise (PUnicodeDecodeError 2 4).
+Proof. vm_compute. reflexivity. Qed.
+Example C20_src_ex_mime :
+  src_check_mime_charset real_enc_data real_oracle false false (fun _ => PNone) [108; 97; 116; 105; 110; 45; 49] [] =
+  PRet ([(t_non_portable, [[108; 97; 116; 105; 110; 45; 49]; s_arrow; [73; 83; 79; 45; 56; 56; 53; 57; 45; 49]])],
+        Some [73; 83; 79; 45; 56; 56; 53; 57; 45; 49]).
 Proof. vm_compute. reflexivity. Qed.
